@@ -28,7 +28,8 @@
     hyp <image>   |   hypedit <kind> <old> <new> <image>
         (follow-up wp-c07b) do the hypotheses of the round-trip theorems of Props/C07.lean hold of the parsed
         (resp. parsed and edited) tree?  "ok" when okTree, pwTree, TopPol and the side condition savedOkAll of the
-        fixed-point theorem all evaluate to true, else "no:" followed by the names of those that do not;
+        fixed-point theorem all evaluate to true, else "no:" followed by the names of those that do not (follow-up
+        wp-c07c: also the parts of the side condition — d60Tree, restOkAll, at256Tree, sizeOkAll);
         "parse:<errclass>" when the image does not parse.
     nvdirsave <store>
         (follow-up wp-c07b) the store parsed by C10's model, extracted, loaded by ParseDir and assembled again,
@@ -38,6 +39,19 @@
         (follow-up wp-c07b) uefi.Parse with C10's `NewNVarStore` model as the NVAR parser (erase polarity 1),
         then `extract`: "parse:<errclass>" | "ok ex=panic" | "ok <n>:<fnv of listing>", the listing of ALL files
         written (volume headers, leaf files, the NVar arm's files) digested over the raw path bytes.
+    nvrt direct|load|ds|hyp <image>
+        (follow-up wp-c07c) the tree-level round trip WITH NVAR stores: uefi.Parse with C10's `NewNVarStore` /
+        `asmStore` as NVAR hooks (`c10Hooks`, erase polarity 0xFF).  "parse:<errclass>", else
+          direct  one Assemble pass over the parsed tree (`utk IMAGE save`): "<fnv>:<len>" | <errclass>
+          load    extract, ParseDir, one Assemble pass under `c10DirHooks` (the loaded stores): the same form
+          ds      extract, ParseDir, Assemble, Save (`extractSaveNv`): the same form
+          hyp     "ok" when okNvTree, pwTree, TopPol, nvUtf8Tree hold of the parsed tree, else "no:<names>"
+    mefpt <region> | mereload <region> | menames <region>
+        (follow-up wp-c07c) the ME flash partition table of an ME region (Uefi/ExtractMe.lean):
+          mefpt     `NewMERegion`: "nofpt" | "ok c=<count> s=<mapStart> n=<entries> e=<fnv of entry dump> f=<FreeSpaceOffset> b=<len(fpt.buf)>"
+                    entry dump = "<name hex>:<owner hex>:<offset>:<length>:<r0>,<r1>,<r2>:<flags>" joined by ";"
+          mereload  the same line for the region after extract, ParseDir (summary.json), Assemble; "err" when loading fails
+          menames   the JSON text of every entry name, hex, joined by "," ("nofpt" without table)
   <errclass> ∈ err | panic | fatal | hang | fuel.   Anything else → "bad-op".
 -/
 import Driver.Common
@@ -48,6 +62,9 @@ import FianoModel.Uefi.FaithfulNvarHook
 import FianoModel.Uefi.ExtractTwiceDefs
 import FianoModel.Uefi.ExtractAsm
 import FianoModel.Uefi.ExtractPathsBase
+import FianoModel.Uefi.ExtractNvTreeDefs
+import FianoModel.Uefi.ExtractMe
+import FianoModel.Uefi.ExtractTwiceParsedDefs
 
 open Fiano Fiano.Uefi Driver
 
@@ -157,7 +174,10 @@ def hypLine (b : Bytes) (e : Option Edit) : String :=
   | .ok (t, st) =>
     let t' := match e with | some e => edit e t | none => t
     let bad := (if okTree t then [] else ["okTree"]) ++ (if pwTree t then [] else ["pwTree"]) ++
-      (if TopPol st.pol t then [] else ["TopPol"]) ++ (if savedOkAll hooks t' st then [] else ["savedOkAll"])
+      (if TopPol st.pol t then [] else ["TopPol"]) ++ (if savedOkAll hooks t' st then [] else ["savedOkAll"]) ++
+      -- follow-up wp-c07c: which part of the side condition fails
+      (if d60Tree t' then [] else ["d60Tree"]) ++ (if restOkAll hooks t' st then [] else ["restOkAll"]) ++
+      (if at256Tree t' then [] else ["at256Tree"]) ++ (if sizeOkAll hooks t' st then [] else ["sizeOkAll"])
     if bad.isEmpty then "ok" else "no:" ++ joinWith "," bad
 
 def nvDirSave (store : Bytes) : String :=
@@ -181,6 +201,45 @@ def nvImage (b : Bytes) : String :=
   | .error er => "parse:" ++ errName er
   | .ok (t, _) => if exFault t then "ok ex=panic" else rawListing (extractDir t)
 
+/-- (follow-up wp-c07c) the tree-level round trip with NVAR stores -/
+def nvRt (what : String) (b : Bytes) : String :=
+  let hP := c10Hooks Hooks.none 0xFF
+  match parseWith hP (defaultFuel b) b {} with
+  | .error er => "parse:" ++ errName er
+  | .ok (t, st) =>
+    match what with
+    | "direct" => bytesLine (asmWith hP t st)
+    | "load" => bytesLine (extractLoadAsmNv Hooks.none 0xFF goJunk t)
+    | "ds" => bytesLine (extractSaveNv Hooks.none 0xFF hP goJunk t)
+    | "hyp" =>
+      let bad := (if okNvTree t then [] else ["okNvTree"]) ++ (if pwTree t then [] else ["pwTree"]) ++
+        (if TopPol st.pol t then [] else ["TopPol"]) ++ (if nvUtf8Tree 0xFF t then [] else ["nvUtf8Tree"])
+      if bad.isEmpty then "ok" else "no:" ++ joinWith "," bad
+    | _ => "bad-op"
+
+/-- (follow-up wp-c07c) the ME partition table -/
+def meEntryText (e : MeEntry) : String :=
+  s!"{toHex e.name}:{toHex e.owner}:{e.offset}:{e.length}:{joinWith "," (e.reserved.map toString)}:{e.flags}"
+
+def meLine (fpt : Option MeFpt) (free : Nat) : String :=
+  match fpt with
+  | none => "nofpt"
+  | some p =>
+    s!"ok c={p.count} s={p.mapStart} n={p.entries.length} e={fnvStr (joinWith ";" (p.entries.map meEntryText))} f={free} b={p.buf.length}"
+
+def meOp (what : String) (b : Bytes) : String :=
+  match what with
+  | "mefpt" => let r := meNewRegion b; meLine r.fpt r.free
+  | "mereload" =>
+    match meRoundTrip [] b with
+    | .error _ => "err"
+    | .ok r => meLine r.fpt r.free
+  | "menames" =>
+    match (meNewRegion b).fpt with
+    | none => "nofpt"
+    | some p => "ok " ++ joinWith "," (p.entries.map (fun e => toHex (jsonName (meNameMarshal e.name))))
+  | _ => "bad-op"
+
 def withBytes (s : String) (k : Bytes → String) : String :=
   match parseHex s with
   | some b => k b
@@ -199,6 +258,10 @@ def handle : List String → String
   | ["nvlisting", st] => withBytes st nvListing
   | ["nvimage", img] => withBytes img nvImage
   | ["nvdirsave", st] => withBytes st nvDirSave
+  | ["nvrt", what, img] => withBytes img (nvRt what)
+  | ["mefpt", rg] => withBytes rg (meOp "mefpt")
+  | ["mereload", rg] => withBytes rg (meOp "mereload")
+  | ["menames", rg] => withBytes rg (meOp "menames")
   | ["hyp", img] => withBytes img fun b => hypLine b none
   | ["hypedit", kind, old, new, img] =>
     match mkEdit kind old new with
